@@ -38,7 +38,6 @@ EXCEPTIONS = {
     ("ZSTD_compressBlock_targetCBlockSize_body", "ZSTD_compressSuperBlock"): "deliberate: compared with ERROR(dstSize_tooSmall) first (fallback to raw block), every other error forwarded",
     ("ZSTD_entropyCompressSeqStore", "ZSTD_entropyCompressSeqStore_internal"): "deliberate: `== 0` and `== ERROR(dstSize_tooSmall) & srcSize <= dstCapacity` (raw block still fits) tested first, then FORWARD_IF_ERROR",
     ("ZSTD_compressSequences_internal", "determine_blockSize"): "`blockSize == remaining` computed one line before FORWARD_IF_ERROR(blockSize); harmless for an error code",
-    ("ZSTD_copyCCtx_internal", "ZSTD_resetCCtx_internal"): "destination is resized with the source's own applied parameters; deprecated copy API, upstream ignores the result (asserts follow)",
     ("ZSTD_createCCtxParams_advanced", "ZSTD_CCtxParams_init"): PARAMS_INIT,
     ("ZSTD_createCDict_advanced", "ZSTD_CCtxParams_init"): PARAMS_INIT,
     ("ZSTD_initStaticCDict", "ZSTD_CCtxParams_init"): PARAMS_INIT,
